@@ -399,6 +399,34 @@ fn main() {
             }
         }
     }
+    // v4 keys whose parameters the library keeps as plain MPIs (ElGamal: p, g, y; DSA: p, q, g, y), one MPI written with 1, 2 or 5
+    // leading zero octets (and the bit count to match): the key is the same key, so fingerprint and key id are those of its
+    // canonical encoding, and the library's own serialisation parses back to the same identity
+    {
+        let mpi = |v: &[u8], zeros: usize| -> Vec<u8> { let bits = v.len() * 8 - v[0].leading_zeros() as usize + 8 * zeros; let mut o = (bits as u16).to_be_bytes().to_vec(); o.extend(std::iter::repeat(0u8).take(zeros)); o.extend_from_slice(v); o };
+        for (alg, nmpi, name) in [(16u8, 3usize, "elgamal"), (17, 4, "dsa")] {
+            let mut vals: Vec<Vec<u8>> = Vec::new();
+            for i in 0..nmpi { let len = if i == 0 { 128 } else if alg == 17 && i == 1 { 20 } else if i == nmpi - 1 { 127 } else { 1 + i }; let mut v = hrng.bytes(len); v[0] |= 0x80; if i == 0 { *v.last_mut().unwrap() |= 1; } vals.push(v); }
+            let body_of = |zeros_at: Option<(usize, usize)>| -> Vec<u8> { let mut b = vec![4u8, 0x3b, 0x9a, 0xca, 0x00, alg]; for (i, v) in vals.iter().enumerate() { b.extend(mpi(v, match zeros_at { Some((j, z)) if j == i => z, _ => 0 })); } b };
+            let canon = body_of(None);
+            for which in 0..nmpi { for zeros in [0usize, 1, 2, 5] {
+                if zeros == 0 && which > 0 { continue; }
+                let body = body_of(Some((which, zeros)));
+                for tag in [6u8, 14] {
+                    let mut pkt = vec![0xC0 | tag, 0xFF]; pkt.extend((body.len() as u32).to_be_bytes()); pkt.extend_from_slice(&body);
+                    let parsed = guarded(|| PacketParser::new(&pkt[..]).next()).ok().flatten();
+                    let cls = format!("handmade-v4-{name}-mpi{which}-zeros{zeros}");
+                    let stable = |fp: &[u8], w: Vec<u8>| -> bool { let mut p2 = vec![0xC0 | tag, 0xFF]; p2.extend((w.len() as u32).to_be_bytes()); p2.extend_from_slice(&w); match PacketParser::new(&p2[..]).next() { Some(Ok(Packet::PublicKey(k2))) => k2.fingerprint().as_bytes() == fp, Some(Ok(Packet::PublicSubkey(k2))) => k2.fingerprint().as_bytes() == fp, _ => false } };
+                    match parsed {
+                        Some(Ok(Packet::PublicKey(k))) => { cx.key(&k, Some(&canon), &cls); let ok = guarded(|| stable(k.fingerprint().as_bytes(), k.to_bytes().unwrap_or_default())).unwrap_or(false); cx.out.case("", &[], &["handmade-mpi".into(), name.into(), which.to_string(), zeros.to_string(), tag.to_string()], if ok { "own serialisation parses back to the same fingerprint" } else { "fingerprint changes across the library's own serialisation" }, Some(ok), &format!("{cls}-stable")); }
+                        Some(Ok(Packet::PublicSubkey(k))) => { cx.key(&k, Some(&canon), &cls); let ok = guarded(|| stable(k.fingerprint().as_bytes(), k.to_bytes().unwrap_or_default())).unwrap_or(false); cx.out.case("", &[], &["handmade-mpi".into(), name.into(), which.to_string(), zeros.to_string(), tag.to_string()], if ok { "own serialisation parses back to the same fingerprint" } else { "fingerprint changes across the library's own serialisation" }, Some(ok), &format!("{cls}-stable")); }
+                        _ => cx.out.case("", &[], &["handmade-mpi".into(), name.into(), which.to_string(), zeros.to_string(), tag.to_string()], "not accepted", Some(true), &format!("{cls}-not-accepted")),
+                    }
+                }
+            } }
+        }
+    }
+
     // the lookup side for a v3 key: its key id is the low 64 bits of the modulus, not a slice of its (MD5) fingerprint.  The RSA
     // material of a generated v4 key is reframed as a v3 public key; the v4 secret key makes v4 signatures that name the
     // v3 key id / another key id / nobody; verification under the v3 key succeeds exactly when the signature names it
